@@ -423,6 +423,9 @@ def replay(cand):
             tolv = 20 * T + mp.mpf('1e-13') / T
         bad = abs(mp.mpf(got) - ex) > tolv
         det = f'= {got!r}, exact value {mp.nstr(ex, 17)}, allowed deviation {mp.nstr(tolv, 5)}'
+    elif clause == 'upper':
+        bad = got > 1 + tv * tv + 1e-13 / tv
+        det = f'= {got!r} > 1 + t^2 (+ rounding allowance 1e-13/t = {1e-13 / tv:.3g})'
     elif clause == 'upperw':
         bad = got > 1 + 1e-12
         det = f'= {got!r} > 1'
